@@ -107,13 +107,11 @@ def main(prop):
         lines, recs = [], []
         for i, entry in enumerate(_lx.RARE_LINES):
             raw, m, ops = entry[:3]
-            if len(entry) > 4:
-                continue   # prefix rewriting cases: the parser checks decide them
             a = format(0x401000 + 8 * i, "x")
             lines.append(f"  {a}:\t{raw:<21}\t{(m + ' ').ljust(7) + ops + (entry[3] if len(entry) > 3 else '') if ops else m}")
             norm = [_lx.reference_normal_form(o) for o in _lx.split_top_level(ops)] if ops else []
             toks = [(_re.findall(r"%[a-z0-9]+|0x[0-9a-f]+|[0-9a-f]{4,}", o) or [None])[0] for o in norm]
-            recs.append((a, m, toks))
+            recs.append((a, entry[4] if len(entry) > 4 else m, toks))   # branch hints / prefixes: the rule names the bare mnemonic
         listing = "\n".join(lines) + "\n"
         for a, m, toks in recs:
             if any(t is None for t in toks):
